@@ -41,11 +41,11 @@ CLAIMED = {
         design='DESIGN.md §4 C02, §8.2'),
     'C03': dict(
         engine='M (mirsym over rustc MIR + z3)',
-        technique='path-wise symbolic execution of the MIR (overflow checks on) of decompress, the three from_bytes parsers and verify::<N>: every assert terminator and every modelled library panic is a z3 obligation over symbolic bytes; violations replayed natively in dev and release',
+        technique='path-wise symbolic execution of the MIR (overflow checks on) of decompress, hash_to_point, the three from_bytes parsers and verify::<N>: every assert terminator and every modelled library panic is a z3 obligation over symbolic bytes; violations replayed natively in dev and release',
         text='Panic-freedom obligations on the real MIR: decompress on all buffers within C07\'s bounds; PublicKey/SecretKey/Signature::from_bytes with every byte symbolic at the accepted and at wrong lengths; '
-             'verify at toy N with the real parameters. Each obligation is discharged by the solver for all inputs in the bound or yields a concrete panicking input. Felt multiplication is panic-free for all operand pairs (engine M with cvc5), and verify\'s accumulators are wide enough for the heaviest signature of every length the parser accepts.',
+             'verify at toy N with the real parameters; hash_to_point (verify\'s first step) over a fully symbolic XOF stream at n <= 8 with up to 6 rejected chunks. Each obligation is discharged by the solver for all inputs in the bound or yields a concrete panicking input. Felt multiplication is panic-free for all operand pairs (engine M with cvc5), and verify\'s accumulators are wide enough for the heaviest signature of every length the parser accepts.',
         note='SecretKey::from_bytes\' floating-point tail (FFT, ffLDL) is outside; panics inside dependencies beyond the modelled ones (index, unwrap, try_into) are outside.',
-        design='DESIGN.md §4 C03'),
+        design='DESIGN.md §4 C03, §8.2'),
     'C05': dict(
         engine='M (mirsym over rustc MIR + z3)',
         technique='symbolic execution of to_bytes then from_bytes (real MIR) on symbolic objects of the representable set; sizes and field-wise equality decided by z3; claimed at the codec layer',
